@@ -1,10 +1,17 @@
 import Prism.Proofs.C06
+import Prism.Proofs.C06Png
 import Prism.Proofs.C06Stream
+import Prism.Proofs.C06Webp
 
 #print axioms Prism.Jpeg.C06_jpeg_reassembly
 #print axioms Prism.Jpeg.C06_jpeg_finish_complete
 #print axioms Prism.Jpeg.C06_jpeg_error_sticks
 #print axioms Prism.Jpeg.C06_jpeg_incomplete
 #print axioms Prism.Jpeg.C06_jpeg_inconsistent_total
+#print axioms Prism.Png.C06_png_iccp
+#print axioms Prism.Png.C06_png_iccp_corrupt
+#print axioms Prism.Jpeg.C06_jpeg_stream_incomplete
 #print axioms Prism.Jpeg.C06_jpeg_stream
 #print axioms Prism.Jpeg.C06_jpeg_stream_pure
+#print axioms Prism.Webp.C06_webp_iccp
+#print axioms Prism.Webp.C06_webp_iccp_missing
